@@ -195,6 +195,20 @@ CLAIMS['C01'] = dict(
          'ALUWritePC path exactly where decode allows d == 15, guard and widths. Not decided: that AddWithCarry / Shift_C / the '
          'expand-immediate helpers compute the architectural numbers (declared under C17).',
     note='Trusted: CPython ast; the role table in sa/props/c01.py (ARM ARM A8 pseudocode); binding through spec/enc_*.json.')
+CLAIMS['C02'] = dict(
+    category='other', design_ref='DESIGN.md section 4 (C02)',
+    technique='structured effect walk of the 49 single load/store execute() bodies; partial evaluation over every assignment of the '
+              'boolean addressing fields (add, index, wback, post_index, register_form) and term comparison with the family template '
+              'derived from the bound reference encoding; event-order rule (access and operand reads before register writes); joint '
+              'load-to-PC rule against the decode model; exclusive-monitor consistency; frame, guard, interval widths',
+    text='Decides, for every base / offset / data value and configuration (properties of all paths of loop-free bodies): the address '
+         'expression incl. add/sub selection and mod-2^32 helper, pre/post-index selection, access size and accessor kind, '
+         'sign/zero extension, target register(s), stored value truncation, doubleword split and endianness halves, that alignment '
+         'tests and rotate amounts use the access address, write-back value and condition, that no write-back or destination write '
+         'precedes an access or an operand read, the LoadWritePC path (operand = loaded word, guard, decode-feasible t == 15), '
+         'exclusive monitor address/size/status protocol, frame and widths. Not decided: bytes moved for given data/endianness '
+         '(C13/C17).',
+    note='Trusted: CPython ast; the template in sa/props/c02.py (ARM ARM A8 pseudocode); binding through spec/enc_*.json.')
 CLAIMS['C04'] = dict(
     category='other', design_ref='DESIGN.md section 4 (C04), Appendix A.7',
     technique='ordering / ownership rules on the PC-advance mechanism, exact tables of the PC read and the four PC-write '
